@@ -179,13 +179,14 @@ NOT_APPLICABLE = {}
 
 # decidable per-operation forms of the properties (coq/Model/Monitors.v), evaluated on the implementation's observed
 # snapshots: they turn a broken correspondence into a concrete failing history
-for _k, _m in {"C10": "mon_C10", "C07": "mon_C07", "C02": "mon_C02", "C09": "mon_C09", "C12": "mon_C12", "C13": "mon_C13", "C03": "mon_C03", "C04": "mon_C04", "C06": "mon_C06w", "C08": "mon_C08r", "C11": "mon_C11",
+for _k, _m in {"C10": "mon_C10", "C07": "mon_C07", "C02": "mon_C02w", "C09": "mon_C09", "C12": "mon_C12", "C13": "mon_C13", "C03": "mon_C03", "C04": "mon_C04", "C06": "mon_C06w", "C08": "mon_C08r", "C11": "mon_C11c",
                "C14": "mon_C14s", "C15": "mon_C15r", "C16": "mon_C16c", "C17": "mon_C17", "C20": "mon_C20"}.items():
     PROPS[_k]["monitor"] = _m
 
 # additions to the claim texts: whole-transaction theorems (coq/Proofs/TxBalances.v) and monitors
 _EXTRA = {
- "C02": "THE LOCKED MINIMUM OVER ALL HISTORIES (LockedLiquidity.v): the pool manager's surplus (balance minus all reserves) never decreases, per denom, through any history (C02_surplus_never_decreases, from the chain induction process_pool); the first deposit into a constant-product pool adds exactly MINIMUM_LIQUIDITY_AMOUNT of the LP denom to it (C02_first_deposit_locks_the_minimum), hence in every later world of every history at least that much LP is held by the pool manager beyond all reserves and can never be redeemed (C02_minimum_liquidity_stays_locked_forever; kernel-evaluated example ending with exactly 1000 locked). Whole-transaction theorem (C02_withdrawal_transaction_moves_exactly_these_balances): a withdrawal pays the sender exactly the floored pro-rata refunds out of the pool manager, destroys exactly the LP sent and changes no other bank balance. Monitor mon_C02 (x*y/S^2 of constant-product pools never decreases through a deposit / withdrawal; LP supplies move only then).",
+ "C02": "THE LOCKED MINIMUM OVER ALL HISTORIES (LockedLiquidity.v): the pool manager's surplus (balance minus all reserves) never decreases, per denom, through any history (C02_surplus_never_decreases, from the chain induction process_pool); the first deposit into a constant-product pool adds exactly MINIMUM_LIQUIDITY_AMOUNT of the LP denom to it (C02_first_deposit_locks_the_minimum), hence in every later world of every history at least that much LP is held by the pool manager beyond all reserves and can never be redeemed (C02_minimum_liquidity_stays_locked_forever; kernel-evaluated example ending with exactly 1000 locked). Whole-transaction theorem (C02_withdrawal_transaction_moves_exactly_these_balances): a withdrawal pays the sender exactly the floored pro-rata refunds out of the pool manager, destroys exactly the LP sent and changes no other bank balance. Monitor mon_C02w (x*y/S^2 of constant-product pools never decreases through a deposit / withdrawal; LP supplies move only then; a withdrawal pays exactly floor(reserve*burned/supply) per asset, takes exactly that off the reserves and burns exactly the LP sent).",
+ "C11": "Monitor mon_C11c on the implementation: a farm's identity, owner, LP denom, reward denom, rate and start never change, budget / claimed / end only grow; an expansion raises the budget by exactly the attached amount (which the farm manager's balance gains) and the end by amount/rate epochs; a creation that sweeps no expired farm records as budget exactly what the farm manager's balance gained, and the creator paid exactly budget + what the fee collector gained.",
  "C04": "Whole-transaction theorem (C04_swap_transaction_moves_exactly_these_balances): for a direct swap the new value of EVERY bank balance is given - sender pays the offer to the pool manager, out of it go exactly return (receiver), protocol fee (collector), burn fee (destroyed); nobody else's balance changes in any denom; the route form is C12_route_quote_is_what_the_route_transaction_pays. Monitor mon_C04 (the pool manager's balance moves exactly as the reserves through swaps and routes).",
  "C08": "Whole-transaction theorem (C08_withdrawal_transaction_moves_exactly_these_balances): a regular withdrawal moves exactly the recorded LP amount from the farm manager to the owner and no other balance. Monitor mon_C08 (a transaction only creates or changes positions of its sender).",
  "C09": "Whole-transaction theorem (C09_emergency_withdrawal_transaction_moves_exactly_these_balances): every bank balance after an emergency withdrawal. Monitor mon_C09 (the owner receives between 10% and 100%; a regular withdrawal returns all).",
